@@ -296,6 +296,10 @@ pub fn real_asserts(prop: &str, case: &Case, real: &Obs, all: &dyn Fn(&str, &str
             return Some(e);
         }
     }
+    // C08: "an error-free result never contains recovered output" is read off the result the way callers do
+    if prop == "C08" && real.panic.is_none() && case.more.is_empty() && real.has_errors && real.result_ok {
+        return Some("into_result() is Ok although the result carries errors (a recovered output passes for an error-free one)".into());
+    }
     match prop {
         "C03" => {
             // output/error consistency of the real ParseResult
